@@ -126,16 +126,23 @@ _wire("C15", 45, 900,
       "each run draws a plan: 2-6 clients from {authentication with own client state and extra protocols, authorized node-led fetch+authentication, unauthorized fetch, token enrollment with distinct per-token state, rejected authentication of a removed node}, 2-4 acceptor goroutines, and the listener's option slice with tape-chosen length 0-4 and spare capacity 0-8. The plan is executed twice in fresh identical worlds: one client at a time, then all clients concurrently with every simstore call and every simnet read/write/accept as a scheduling point of the seeded scheduler (with per-run priorities for long overtakes). Non-trivial: every plan with >=2 clients; distinct by (client kinds, option slice shape, acceptors, schedule hash).",
       ["isolation is decided by differential execution: per client the tuple (dial result, accept result, negotiated-protocol class, ClientState, ClientNextProtos tail, node record existence and state, token consumed) must be equal in both executions; connections are attributed to clients by a unique marker protocol each client offers",
        "literal data-race freedom is not decided by the serialising scheduler (consequences of unsynchronised sharing are); the thorough tier adds an auxiliary free-running -race stress (bin/racestress)"])
+META["C19"] = dict(
+    engine="kv", level="exploration", quick_s=25, thorough_s=600,
+    rule="two thirds of the runs are sequential histories of 5-60 Store/Load/Remove/List operations over IDs {a,b,c,current,next,roots} x the four message types (unique payload per store; nil, typed-nil and unknown message types interspersed) on inmem, file (per-run scratch directory) or store-once, compared step by step with a typed map model; one third are concurrent histories (2-4 clients x 3-10 operations on a two-ID, two-type key space, inmem or store-once) where each operation is one step of the seeded scheduler, invoke/return are stamped with the scheduler's event counter, and the history is checked with porcupine against the same model. Non-trivial: all; distinct by (back end, history length, final model state) and (clients, operations, schedule hash).",
+    assumptions=COMMON_ASSUME + [
+        "Remove of an absent entry may return nil or an error (the statement is silent and the back ends differ); state must be unchanged",
+        "operations are atomic scheduling steps (the back ends have no internal seam): a missing lock is invisible to the deterministic part; that clause rests on the auxiliary -race stress of the thorough tier (bin/racestress)",
+        "porcupine Unknown (timeout) is counted as inconclusive and never reported"])
 
 HOOK_COMMITS = ["54f90f1 (H2: net/splitlistener.go scheduling points + net/verif_hook_{on,off}.go)",
                 "c914c74 (H1: protocol/dialer.go SimDial seam + protocol/verif_hook_{on,off}.go)"]
 
-_UNBUILT = "check not built yet in this session (planned, see DESIGN.md section 4)"
-NOT_APPLICABLE = {("C%02d" % i): _UNBUILT for i in range(1, 21)}
+NOT_APPLICABLE = {}
 NOT_APPLICABLE["C20"] = ("pure function of its arguments (BreakIntoNextProtos/CombineFromNextProtos): no clock, schedule, I/O, fault or second party for a simulator to control; "
                          "its failure modes are reached by the simulated workloads of C14 (malformed entries in a hostile ClientHello) and C07/C16 (honest payloads needing >99 chunks)")
 
 LEVEL_TEXT = {
+    "C19": "seeded operation histories against an executable typed-map model, sequentially (step-by-step refinement) and concurrently (linearizability of the recorded history with porcupine).",
     "C15": "seeded schedule exploration of concurrent handshakes on one real listener (scheduling points at the storage and network seams), with isolation decided by differential execution against a one-at-a-time run of the same plan.",
     "C17": "seeded simulation of authenticated, base-TLS, fetch-only and garbage clients against the real SplitListener stack under the deterministic scheduler; each delivery is judged against a routing model (authenticated peers only on non-__UNAUTH__ listeners, destination rule, connection type, closure).",
     "C07": "seeded simulation of honest dial histories across root rotations, of the pending-then-authorized path, and of rogue-server constructions; every completed dial is checked against the node's stored roots and the connection's own nonce, every expected-successful dial must succeed.",
@@ -156,6 +163,7 @@ LEVEL_TEXT = {
     "C18": "seeded exploration of interleavings of ingress/accept/close/cancel on the real MultiplexingListener under a lock-aware deterministic scheduler; invariants (exactly-once delivery xor close, no panic, Close returns, accept-after-close) checked after every step and at quiescence. Sampling: small bags usually saturate their schedule space, exhaustiveness is not claimed.",
 }
 TECHNIQUE = {
+    "C19": "deterministic simulation: seeded operation histories, refinement against a map model; concurrent histories under the seeded scheduler checked for linearizability with porcupine",
     "C15": "deterministic simulation: seeded scheduler over storage/network seams for concurrent TLS handshakes; differential oracle (concurrent vs one-at-a-time execution of the same plan)",
     "C13": "deterministic simulation with enumerated fault injection at the Storage seam (single faults complete, double faults sampled); durability/fail-closed oracle against the inner back end",
     "C18": "deterministic simulation: seeded lock-aware scheduler over hook-H2 points in a synctest bubble; invariants per step + bounded-liveness at quiescence; tape shrinking",
